@@ -34,6 +34,8 @@ def run(tier):
         H.freenull(prog, rep)
         H.cookie_init(prog, rep, L)
         H.eol_scan(prog, rep)
+        if H.header_index(prog, rep) < 4:      # "never reads or writes outside its own buffers": the parsed-header array
+            rep.defer_broken("W9-index: fewer than 4 subscripts of the parsed-header array found")
         H.chunk_framing(prog, rep)     # "never aborts": a consume of more than the line and its CRLF trips the reader's assertion
         H.borrow_rule(prog, rep)       # nothing of the caller's request description is read after http_request() returns, except the body
         from . import c07, c14
